@@ -514,6 +514,8 @@ def orc_c17(ctx, op, req, impl, model, spec):
         return "from_parts differs from parsing the joined string"
     if op == "raw" and impl != "ok none" and f[3] != "1":
         return "integer form does not convert back to an equal subtag"
+    if op == "rawref" and req.split(" ")[1] in ("lang", "variant") and impl != "ok none" and f[-1] != "1":
+        return "integer form taken by reference does not convert back to an equal subtag"
     if op == "raw" and impl != "ok none":
         seen = ctx.setdefault("raw", {})
         kind = req.split(" ")[1]
